@@ -434,7 +434,17 @@ func c01Run(c *core.Ctx) *core.Result {
 		ropt.ProgressCb = func(int, bool) {}
 	}
 	caps := []int{0, 1, 2, 8, 32, 64}
-	so := syncOpt{Cfg: wire.Config{Cap: core.Pick(R, caps)}, Src: fs, Dest: dest, Recv: ropt}
+	recvDest := dest
+	if R.P(1, 8) {
+		// the destination is named through a symlink to the directory
+		link := filepath.Join(c.Dir, "dest-link")
+		if os.Symlink("dest", link) == nil {
+			recvDest = link
+			r.Count("destinations_named_through_a_symlink", 1)
+			cfg += " dest=via-symlink"
+		}
+	}
+	so := syncOpt{Cfg: wire.Config{Cap: core.Pick(R, caps)}, Src: fs, Dest: recvDest, Recv: ropt}
 	if R.P(1, 3) {
 		gr := R.Fork()
 		so.Cfg.Generic = func() bool { return gr.P(1, 2) }
